@@ -93,6 +93,7 @@ package activations
 //@ func Softmax.forward
 //@   requires tinv(x) && preexisting(x) && 0 <= c.dim && c.dim < rank(x)
 //@   uses projInb, delInbUnsq, unsqRed
+//@   usesdef sumPos
 //@   witness e = x
 //@   ensures[C14] err == nil && y != nil && sameShape(y, old(x))
 //@   ensures[C14] existsT(e, sameShape(e, old(x)) && forallJ(J, imp(inb(e, J), el(e, J) == exp(el(old(x), J))))
